@@ -139,6 +139,7 @@ func taskfile(c Cfg) string {
 		}
 		b.WriteString("      - echo 2 >> \"$TRACE\"\n      - test ! -f \"$CTL/fail2\"\n      - test ! -f \"$CTL/kill2\" || sh -c 'kill -KILL $PPID'\n")
 	}
+	fmt.Fprintf(&b, "  wrapdep:\n    deps: ['%s']\n", t)
 	fmt.Fprintf(&b, "  wrap:\n    deps: ['%s', sib]\n  sib:\n    cmds:\n      - sleep 0.3; exit 1\n", t)
 	b.WriteString("  pre:\n    preconditions:\n      - test ! -f \"$CTL/failpre\"\n")
 	b.WriteString("  d:\n    dir: ./newdir\n    status: ['test -f nope']\n    cmds:\n      - echo 3 >> \"$TRACE\"\n")
@@ -244,6 +245,12 @@ func Execute(h *History) error {
 			case "cancelsib":
 				args = []string{"wrap"}
 				ctlFile = filepath.Join(ctl, s.Mode)
+			case "depfail1":
+				args = []string{"wrapdep"}
+				ctlFile = filepath.Join(ctl, "fail1")
+			case "forcefail1":
+				args = []string{t, "--force"}
+				ctlFile = filepath.Join(ctl, "fail1")
 			case "prompt":
 				args = []string{t}
 				yes = false
@@ -367,7 +374,7 @@ func (w *world) apply(s Step, c Cfg) {
 var fileOps = []Step{{Op: "edit", F: "a"}, {Op: "touch", F: "a"}, {Op: "add", F: "b"}, {Op: "addold", F: "b"}, {Op: "rm", F: "a"},
 	{Op: "ren", F: "a", G: "b"}, {Op: "edit", F: "x"}, {Op: "touch", F: "x"}, {Op: "rm", F: "x"}, {Op: "rmgen"}, {Op: "flip"}}
 
-var allModes = []string{"run", "other", "fail1", "fail2", "failpre", "cancelsib", "kill1", "kill2", "prompt", "force", "dry", "status", "list", "listjson", "summary", "drydir", "dryfailpre"}
+var allModes = []string{"run", "other", "fail1", "fail2", "failpre", "depfail1", "forcefail1", "cancelsib", "kill1", "kill2", "prompt", "force", "dry", "status", "list", "listjson", "summary", "drydir", "dryfailpre"}
 
 func inv(m string) Step { return Step{Op: "inv", Mode: m} }
 
